@@ -1,0 +1,61 @@
+//go:build verif
+
+package queue
+
+// Contracts for /verif (contract-based deductive verification of this package).
+// Comment-only file: only the lines starting with "//@" are read, by /verif/bin/govc.
+
+// the doubly linked lists: tiny helpers are inlined (the code verified is still the real code)
+//@ func unlink inline
+//@ func addAfter inline
+//@ func addBefore inline
+//@ func insertAfter inline
+//@ func insertBefore inline
+//@ func (*sortedFile).getNext inline
+//@ func (*sortedFile).getPrev inline
+//@ func (*sortedFile).setNext inline
+//@ func (*sortedFile).setPrev inline
+//@ func (*sortedFile).unlink inline
+//@ func (*sortedFile).insertAfter inline
+//@ func (*sortedFile).insertBefore inline
+//@ func (*sortedGroup).getNext inline
+//@ func (*sortedGroup).getPrev inline
+//@ func (*sortedGroup).setNext inline
+//@ func (*sortedGroup).setPrev inline
+//@ func (*sortedGroup).addAfter inline
+//@ func (*sortedGroup).addBefore inline
+//@ func (*sortedGroup).insertAfter inline
+
+// ---------------------------------------------------------------- chunk allocation (C11)
+
+//@ func (*sortedFile).allocate
+//@   requires f != nil
+//@   requires plain: !typeis(f.orig, sts.Recovered) ==> 0 <= f.allocated && f.allocated < f.orig.GetSize() && desired >= 0
+//@   ensures  range-is-cursor-step: !typeis(f.orig, sts.Recovered) ==> offset == old(f.allocated) && length > 0 && f.allocated == offset + length && f.allocated <= f.orig.GetSize() && (desired > 0 ==> length <= desired) && (length == desired || f.allocated == f.orig.GetSize())
+//@   on return assert recovered-delegates: typeis(f.orig, sts.Recovered) ==> called(sts.Recovered.Allocate) && lastarg(sts.Recovered.Allocate, 1) == desired && offset == lastret(sts.Recovered.Allocate, 0) && length == lastret(sts.Recovered.Allocate, 1) && f.allocated == old(f.allocated)
+
+//@ func (*sortedFile).isAllocated
+//@   on return assert iff-cursor-at-size: (!typeis(f.orig, sts.Recovered) ==> result == (f.allocated == f.orig.GetSize())) && (typeis(f.orig, sts.Recovered) ==> called(sts.Recovered.IsAllocated) && result == lastret(sts.Recovered.IsAllocated, 0))
+//@   modifies nothing
+
+//@ func (*sortedFile).getSendSize
+//@   on return assert size-to-send: (!typeis(f.orig, sts.Recovered) ==> result == f.orig.GetSize()) && (typeis(f.orig, sts.Recovered) ==> called(sts.Recovered.GetSendSize) && result == lastret(sts.Recovered.GetSendSize, 0))
+//@   modifies nothing
+
+// ---------------------------------------------------------------- predecessor chain (C10)
+
+//@ func (*sortedFile).getPrevName
+//@   on return assert recovered-keeps-own-prev: typeis(f.orig, sts.Recovered) ==> called(sts.Recovered.GetPrev) && result == lastret(sts.Recovered.GetPrev, 0)
+//@   on return assert chain-predecessor: !typeis(f.orig, sts.Recovered) ==> (f.prev != nil ==> result == f.prev.orig.GetName()) && (f.prev == nil ==> result == "")
+//@   modifies nothing
+
+// ---------------------------------------------------------------- group rotation (C12)
+
+//@ func (*Tagged).delayGroup
+//@   requires group != nil && group.conf != nil
+//@   on return assert single-or-last-stays: n == group ==> unchanged(group.next) && unchanged(group.prev) && unchanged(q.headGroup)
+//@   on return assert moved-behind-last-of-priority: n != group && n != old(group.prev) && old(n.next) != group ==> n.next == group && group.prev == n && group.next == old(n.next) && (old(n.next) != nil ==> old(n.next).prev == group)
+//@   on return assert gap-is-closed: n != group && n != old(group.prev) && old(group.prev) != nil && old(group.prev) != group ==> old(group.prev).next == old(group.next)
+//@   on return assert head-follows: n != group ==> q.headGroup == ite(old(q.headGroup) == group, old(group.next), old(q.headGroup))
+//@   on return assert run-of-equal-priority: n.conf.Priority == group.conf.Priority && (n.next == nil || n == group || old(n.next) == nil || old(n.next).conf.Priority != group.conf.Priority)
+//@   loop 0 invariant n != nil && n.conf != nil && n.conf.Priority == p && p == group.conf.Priority
